@@ -263,7 +263,7 @@ def gen_rich(rng, P, serial=0):
     if rng.random() < 0.12:
       nd["space"] = rng.choice(["default", "preserve"])
     if rng.random() < 0.12:
-      nd["lang"] = rng.choice(["de", "ja", "en-GB"])
+      nd["lang"] = rng.choice(["de", "ja", "en-GB", "-"])        # "-": xml:lang="" (specified, empty)
     if rng.random() < 0.4:
       nd["attrs"] = rand_attrs(rng, CONTENT_PROPS, 1, 2)
     nd["srefs"] = srefs()
@@ -360,6 +360,26 @@ def gen_rich(rng, P, serial=0):
   for _ in range(rng.choice([1, 1, 2])):
     if len(doc["N"]) < 22:
       div(body, 0)
+
+  if rng.random() < 0.08 and len(doc["N"]) < 40:
+    # a paragraph whose ONLY direct text is white space before its first child (xml:space="default": it shows nothing, but it
+    # is an anonymous span all the same and makes the paragraph's implicit duration indefinite), in a sequential division
+    # where the next paragraph waits for it to end
+    dv = add(doc, "div", body, tc="seq", tcattr=True)
+    p1 = add(doc, "p", dv, space="default")
+    add(doc, "text", p1, tag=" ")
+    sp1 = add(doc, "span", p1)
+    v = rng.randint(1, 3)
+    doc["N"][sp1 - 1][rng.choice(["d", "e"])] = expr(v * g, P, prefer, rng)
+    total[0] += v
+    text(sp1)
+    p2 = add(doc, "p", dv)
+    v = rng.randint(1, 3)
+    doc["N"][p2 - 1]["d"] = expr(v * g, P, prefer, rng)
+    total[0] += v
+    text(p2)
+    if region_level in ("div", "p") and rids:
+      doc["N"][dv - 1]["reg"] = rng.choice(rids)
 
   for rid in rids:
     i = add(doc, "region", 0, rid=rid)
